@@ -27,6 +27,11 @@ package retriever
 //      file in the directory (fragment-like, fragment-like *.tmp of a later shard, unrelated file in the root,
 //      unrelated file in the graph directory).
 //   VERIF_SEED only permutes the order of jobs and of first interruptions; results are order independent.
+//   "cases" counts calls of the real Dump; "sequences" counts interruption sequences (f1) and (f1,f2).
+//   EXECUTION: the hook is a package global, so one process runs one Dump at a time; the enumeration is cut
+//   into jobs (configuration x crash model x slice of the first interruptions) and every job runs in a child
+//   process (this test binary re-executed with VERIF_C19_JOB=<n>); if a child cannot be started the job runs
+//   in-process ("jobs_run_in_process"). Scratch directories live under /dev/shm when it exists.
 //
 // CRASH MODELS. A crash is simulated by panicking with a private sentinel from the hook and recovering it in
 // the harness around Dump. "unwind": the directory is used as left after the panic unwound through Dump (its
@@ -61,6 +66,7 @@ import (
 	"log/slog"
 	"math/rand"
 	"os"
+	"os/exec"
 	"path/filepath"
 	"reflect"
 	"regexp"
@@ -69,6 +75,7 @@ import (
 	"strconv"
 	"strings"
 	"sync"
+	"sync/atomic"
 	"testing"
 	"time"
 
@@ -80,22 +87,19 @@ import (
 // The check stays in place: a violation whose class is listed here is counted under "known_deviation_hits"
 // instead of "failures" (and a weaker, still meaningful check is applied where one exists); every other
 // input is checked in full. See the per-class comments.
-var knownDeviations = []string{
-	// The manifest is published (renamed into place) BEFORE the checkpoint is removed. A crash between the two
-	// steps leaves manifest.json AND .retriever-checkpoint.json; the literal oracle "no manifest after an
-	// interruption" fails. Weaker check applied: the directory is a complete dump equivalent to the reference,
-	// apart from the left-over checkpoint file. A later resume is refused ("already contains a complete manifest").
-	"manifest-present-after-crash@manifest.renamed",
-	// Crash after the last file-system step (checkpoint removed, Dump has not returned yet): the dump is complete.
-	// Listed for completeness of the crash point enumeration; weaker check: complete dump equivalent to reference.
-	"manifest-present-after-crash@checkpoint.removed",
-	// The source graph changed between crash and resume, but the checkpoint holds no count snapshot of that
-	// graph yet (crash before the graph was counted, or the snapshot only reached the checkpoint temp file):
-	// the resume succeeds. Weaker check applied: the result is a complete dump of the CHANGED source.
-	"source-change-undetected:graph-not-yet-counted",
-	// The source changed but node and edge counts are the same (a node replaced by another one): the
-	// checkpoint only records counts, the resume succeeds. No weaker check (result mixes both source states).
-	"source-change-undetected:count-preserving",
+var knownDeviations = vcKnownFromEnv()
+
+// vcKnownFromEnv: the deviation classes come from /verif/known_findings.json through VERIF_KNOWN ("|"-separated
+// class names); nothing is suppressed that the committed findings file does not list. The classes a child
+// process sees are the same (the environment is inherited).
+func vcKnownFromEnv() []string {
+	var out []string
+	for _, p := range strings.Split(os.Getenv("VERIF_KNOWN"), "|") {
+		if p = strings.TrimSpace(p); p != "" {
+			out = append(out, p)
+		}
+	}
+	return out
 }
 
 const vcCallTimeout = 120 * time.Second
@@ -228,7 +232,7 @@ func (s *vcNodeQuery) Filter(criteria graph.Criteria) graph.NodeQuery {
 	return s
 }
 func (s *vcNodeQuery) OrderBy(...graph.Criteria) graph.NodeQuery { return s }
-func (s *vcNodeQuery) Limit(limit int) graph.NodeQuery            { s.limit = limit; return s }
+func (s *vcNodeQuery) Limit(limit int) graph.NodeQuery           { s.limit = limit; return s }
 func (s *vcNodeQuery) Count() (int64, error) {
 	if s.tx.db.op("count-nodes") {
 		return 0, errVcInjected
@@ -282,7 +286,7 @@ func (s *vcRelQuery) Filter(criteria graph.Criteria) graph.RelationshipQuery {
 	return s
 }
 func (s *vcRelQuery) OrderBy(...graph.Criteria) graph.RelationshipQuery { return s }
-func (s *vcRelQuery) Limit(limit int) graph.RelationshipQuery            { s.limit = limit; return s }
+func (s *vcRelQuery) Limit(limit int) graph.RelationshipQuery           { s.limit = limit; return s }
 func (s *vcRelQuery) Count() (int64, error) {
 	if s.tx.db.op("count-edges") {
 		return 0, errVcInjected
@@ -332,27 +336,16 @@ type vcRunState struct {
 	snapErr   error
 }
 
-// The hook is a package global but jobs run concurrently: the state of a Dump call is found through the id
-// of the goroutine that runs it (Dump invokes the hook synchronously on its caller's goroutine).
-var vcRuns sync.Map
-
-func vcGoID() uint64 {
-	var buf [64]byte
-	n := runtime.Stack(buf[:], false)
-	fields := strings.Fields(string(buf[:n]))
-	if len(fields) < 2 {
-		return 0
-	}
-	id, _ := strconv.ParseUint(fields[1], 10, 64)
-	return id
-}
+// The hook is a package global: within one process Dump calls are made strictly one after the other and the
+// state of the call in progress is published here. Parallelism comes from running jobs in child processes
+// (the test binary re-executes itself, see TestVerifBoundedCrashResume).
+var vcCurrent atomic.Pointer[vcRunState]
 
 func vcHook(point string) {
-	v, ok := vcRuns.Load(vcGoID())
-	if !ok {
+	st := vcCurrent.Load()
+	if st == nil {
 		return
 	}
-	st := v.(*vcRunState)
 	st.hooks = append(st.hooks, point)
 	if st.crashAt > 0 && len(st.hooks) == st.crashAt {
 		if st.strict {
@@ -416,6 +409,7 @@ type vcOutcome struct {
 	crashed    bool
 	crashPoint string
 	harnessErr string
+	hung       bool
 	hooks      []string
 	ops        []string
 	res        DumpResult
@@ -434,10 +428,8 @@ func vcRunDump(dir string, data *vcData, driver string, targets []GraphTarget, o
 	ctx, cancel := context.WithTimeout(context.Background(), vcCallTimeout)
 	defer cancel()
 	done := make(chan vcOutcome, 1)
+	vcCurrent.Store(st)
 	go func() {
-		id := vcGoID()
-		vcRuns.Store(id, st)
-		defer vcRuns.Delete(id)
 		var out vcOutcome
 		defer func() {
 			if r := recover(); r != nil {
@@ -455,8 +447,10 @@ func vcRunDump(dir string, data *vcData, driver string, targets []GraphTarget, o
 	var out vcOutcome
 	select {
 	case out = <-done:
+		vcCurrent.Store(nil)
 	case <-time.After(vcCallTimeout + 10*time.Second):
-		return vcOutcome{harnessErr: "Dump did not return within " + vcCallTimeout.String() + " (hang)"}
+		vcCurrent.Store(nil)
+		return vcOutcome{hung: true, harnessErr: "Dump did not return within " + vcCallTimeout.String() + " (hang)"}
 	}
 	if out.crashed && strict {
 		if st.snapErr != nil {
@@ -796,15 +790,19 @@ func vcCheckComplete(dir string, cfg vcConfig, data *vcData, ref *vcReference, a
 var vcDigits = regexp.MustCompile(`[0-9]+`)
 
 type vcJob struct {
-	cfg    vcConfig
-	strict bool
-	full   bool // bound "2": all second interruptions
-	root   string
-	seed   int64
+	cfg     vcConfig
+	strict  bool
+	full    bool // bound "2": all second interruptions
+	root    string
+	seed    int64
+	part    int // this job handles the first interruptions number i with i % parts == part
+	parts   int
+	aborted bool // a Dump call hung: nothing more can be run in this process
 
 	cases     int
 	sequences int
 	refused   int
+	injected  int             // resumes that returned an error because a read error was injected into them
 	completed int             // resumes that returned nil (and were checked against the reference)
 	stuck     map[string]bool // kinds of first interruption after which a fault free resume is refused
 	reasons   map[string]int
@@ -852,8 +850,19 @@ func (j *vcJob) refuse(dir string, err error) {
 
 func (j *vcJob) dump(dir string, data *vcData, opts DumpOptions, resume bool, fault vcFault) vcOutcome {
 	opts.Resume = resume
+	return j.call(dir, data, vcDriver, vcTargets(data), opts, fault)
+}
+
+func (j *vcJob) call(dir string, data *vcData, driver string, targets []GraphTarget, opts DumpOptions, fault vcFault) vcOutcome {
+	if j.aborted {
+		return vcOutcome{harnessErr: "not run: an earlier Dump call hung"}
+	}
 	j.cases++
-	return vcRunDump(dir, data, vcDriver, vcTargets(data), opts, fault, j.strict)
+	out := vcRunDump(dir, data, driver, targets, opts, fault, j.strict)
+	if out.hung {
+		j.aborted = true
+	}
+	return out
 }
 
 func (j *vcJob) reference(data *vcData) *vcReference {
@@ -908,7 +917,9 @@ func vcFaults(hooks, ops []string, all bool) []vcFault {
 	return out
 }
 
-func vcPostCommit(point string) bool { return point == "manifest.renamed" || point == "checkpoint.removed" }
+func vcPostCommit(point string) bool {
+	return point == "manifest.renamed" || point == "checkpoint.removed"
+}
 
 // checkInterrupted: the Dump call with the given fault was indeed interrupted; returns false if the sequence
 // cannot be continued.
@@ -1053,6 +1064,9 @@ func (j *vcJob) negatives() []vcNegative {
 
 func (j *vcJob) runNegatives(state, work string, f1 vcFault, negs []vcNegative) {
 	for _, neg := range negs {
+		if j.aborted {
+			return
+		}
 		desc := fmt.Sprintf("%s, then resume with %s", f1, neg.name)
 		if err := vcCopyTree(state, work); err != nil {
 			j.fail("%s: harness copy failed: %v", desc, err)
@@ -1082,8 +1096,7 @@ func (j *vcJob) runNegatives(state, work string, f1 vcFault, negs []vcNegative) 
 		if neg.target != nil {
 			targets = neg.target
 		}
-		j.cases++
-		out := vcRunDump(work, data, driver, targets, opts, vcFault{}, j.strict)
+		out := j.call(work, data, driver, targets, opts, vcFault{})
 		if out.harnessErr != "" || out.crashed {
 			j.fail("%s: %s crashed=%v", desc, out.harnessErr, out.crashed)
 			continue
@@ -1117,6 +1130,7 @@ func (j *vcJob) runNegatives(state, work string, f1 vcFault, negs []vcNegative) 
 
 func (j *vcJob) run() {
 	j.reasons, j.devHits, j.refs, j.stuck = map[string]int{}, map[string]int{}, map[string]*vcReference{}, map[string]bool{}
+	defer os.RemoveAll(j.root)
 	data := j.cfg.data
 	ref := j.reference(data)
 	if j.failCount > 0 {
@@ -1124,11 +1138,19 @@ func (j *vcJob) run() {
 	}
 	state, work := filepath.Join(j.root, "state"), filepath.Join(j.root, "work")
 	negs := j.negatives()
-	firsts := vcFaults(ref.hooks, ref.ops, true)
+	var firsts []vcFault
+	for i, f := range vcFaults(ref.hooks, ref.ops, true) {
+		if i%j.parts == j.part { // the split into parts does not depend on the seed
+			firsts = append(firsts, f)
+		}
+	}
 	if j.seed != 0 {
 		rand.New(rand.NewSource(j.seed)).Shuffle(len(firsts), func(a, b int) { firsts[a], firsts[b] = firsts[b], firsts[a] })
 	}
 	for _, f1 := range firsts {
+		if j.aborted {
+			return
+		}
 		// sequences without any crash do not depend on the crash model: they are checked in the unwind job only
 		// ((read error, crash) sequences are checked in both).
 		dup := j.strict && f1.kind != vcFaultCrash
@@ -1164,6 +1186,9 @@ func (j *vcJob) run() {
 
 		// second interruption during the resume, then a fault free resume
 		for _, f2 := range vcFaults(o2.hooks, o2.ops, j.full) {
+			if j.aborted {
+				return
+			}
 			if dup && f2.kind != vcFaultCrash {
 				continue
 			}
@@ -1184,14 +1209,71 @@ func (j *vcJob) run() {
 				j.fail("%s: %s", desc2, p)
 			}
 			if o2f.err != nil {
-				j.refuse(work, o2f.err)
+				j.injected++ // the interrupted resume itself returned the injected read error: not a refusal
 			}
 			pre2, preManifest2 := vcReadCheckpoint(work), vcExists(work, manifestFileName)
 			o3 := j.dump(work, data, j.cfg.options(), true, vcFault{})
 			j.checkResume(work, o3, pre2, preManifest2, data, desc2+", then resume")
 		}
 	}
-	_ = os.RemoveAll(j.root)
+}
+
+// vcPart is what one job reports (child process -> parent, as JSON).
+type vcPart struct {
+	Cases, Sequences, Refused, Completed, FailCount, Injected int
+	Failures                                                  []string
+	Reasons, DevHits                                          map[string]int
+	Stuck                                                     []string
+}
+
+func (j *vcJob) part_() vcPart {
+	p := vcPart{Cases: j.cases, Sequences: j.sequences, Refused: j.refused, Completed: j.completed, FailCount: j.failCount, Injected: j.injected,
+		Failures: j.failures, Reasons: j.reasons, DevHits: j.devHits}
+	for k := range j.stuck {
+		p.Stuck = append(p.Stuck, k)
+	}
+	return p
+}
+
+var vcInProcess sync.Mutex // the hook state is per process: in-process jobs run one at a time
+
+func (j *vcJob) runInProcess() vcPart {
+	vcInProcess.Lock()
+	defer vcInProcess.Unlock()
+	func() {
+		defer func() {
+			if r := recover(); r != nil {
+				j.fail("harness panic: %v", r)
+			}
+		}()
+		j.run()
+	}()
+	return j.part_()
+}
+
+const vcPartPrefix = "VERIF-C19-PART "
+
+// runChild runs job number idx in a child process (this test binary, same test, VERIF_C19_JOB=idx).
+func vcRunChild(idx int, root string) (vcPart, error) {
+	ctx, cancel := context.WithTimeout(context.Background(), 25*time.Minute)
+	defer cancel()
+	cmd := exec.CommandContext(ctx, os.Args[0], "-test.run=^TestVerifBoundedCrashResume$", "-test.count=1", "-test.timeout=0")
+	cmd.Env = append(os.Environ(), "VERIF_C19_JOB="+strconv.Itoa(idx), "VERIF_C19_ROOT="+root, "GOMAXPROCS=2")
+	output, err := cmd.CombinedOutput()
+	for _, line := range strings.Split(string(output), "\n") {
+		if strings.HasPrefix(line, vcPartPrefix) {
+			var part vcPart
+			if jsonErr := json.Unmarshal([]byte(strings.TrimPrefix(line, vcPartPrefix)), &part); jsonErr != nil {
+				return vcPart{}, jsonErr
+			}
+			return part, nil
+		}
+	}
+	tail := string(output)
+	if len(tail) > 400 {
+		tail = tail[len(tail)-400:]
+	}
+	return vcPart{}, fmt.Errorf("child reported nothing (%v): %s", err, tail)
 }
 
 // ---------------------------------------------------------------- driver
@@ -1238,6 +1320,45 @@ func TestVerifBoundedCrashResume(t *testing.T) {
 			vcConfig{data: g3x2, shard: 2, batch: 2, codec: CompressionNone, scrub: true})
 	}
 
+	// jobs: configuration x crash model x slice of the first interruptions (big databases are split so that
+	// the work spreads over the child processes). The list is a pure function of the bound.
+	var jobs []*vcJob
+	for _, cfg := range configs {
+		entities := 0
+		for _, g := range cfg.data.graphs {
+			entities += len(g.nodes) + len(g.edges)
+		}
+		parts := 1 + entities/3
+		if bound == "2" {
+			parts = 1 + entities
+		}
+		for _, strict := range []bool{false, true} {
+			for part := 0; part < parts; part++ {
+				jobs = append(jobs, &vcJob{cfg: cfg, strict: strict, full: bound == "2", seed: seed, part: part, parts: parts})
+			}
+		}
+	}
+
+	previousLogger := slog.Default()
+	slog.SetDefault(slog.New(slog.NewTextHandler(io.Discard, &slog.HandlerOptions{Level: slog.Level(100)})))
+	defer slog.SetDefault(previousLogger)
+	previousHook := VerifCrashHook
+	VerifCrashHook = vcHook
+	defer func() { VerifCrashHook = previousHook }()
+
+	// child process: run the one job it was given and report it
+	if child := os.Getenv("VERIF_C19_JOB"); child != "" {
+		idx, err := strconv.Atoi(child)
+		if err != nil || idx < 0 || idx >= len(jobs) {
+			t.Fatalf("bad VERIF_C19_JOB %q", child)
+		}
+		job := jobs[idx]
+		job.root = filepath.Join(os.Getenv("VERIF_C19_ROOT"), fmt.Sprintf("job%04d", idx))
+		out, _ := json.Marshal(job.runInProcess())
+		fmt.Println(vcPartPrefix + string(out))
+		return
+	}
+
 	base := ""
 	if info, err := os.Stat("/dev/shm"); err == nil && info.IsDir() {
 		base = "/dev/shm"
@@ -1251,28 +1372,14 @@ func TestVerifBoundedCrashResume(t *testing.T) {
 	}
 	defer os.RemoveAll(root)
 
-	previousLogger := slog.Default()
-	slog.SetDefault(slog.New(slog.NewTextHandler(io.Discard, &slog.HandlerOptions{Level: slog.Level(100)})))
-	defer slog.SetDefault(previousLogger)
-	previousHook := VerifCrashHook
-	VerifCrashHook = vcHook
-	defer func() { VerifCrashHook = previousHook }()
-
-	var jobs []*vcJob
-	for i, cfg := range configs {
-		for _, strict := range []bool{false, true} {
-			jobs = append(jobs, &vcJob{cfg: cfg, strict: strict, full: bound == "2", seed: seed, root: filepath.Join(root, fmt.Sprintf("job%03d-%v", i, strict))})
-		}
-	}
 	order := make([]int, len(jobs))
 	for i := range order {
 		order[i] = i
 	}
-	// big databases first (better load balance); the seed permutes within that
 	if seed != 0 {
 		rand.New(rand.NewSource(seed)).Shuffle(len(order), func(a, b int) { order[a], order[b] = order[b], order[a] })
 	}
-	sort.SliceStable(order, func(a, b int) bool {
+	sort.SliceStable(order, func(a, b int) bool { // expensive jobs first
 		size := func(j *vcJob) int {
 			n := 0
 			for _, g := range j.cfg.data.graphs {
@@ -1282,9 +1389,12 @@ func TestVerifBoundedCrashResume(t *testing.T) {
 		}
 		return size(jobs[order[a]]) > size(jobs[order[b]])
 	})
-	work := make(chan *vcJob)
+	parts := make([]vcPart, len(jobs))
+	fallbacks := 0
+	var fallbackMu sync.Mutex
+	queue := make(chan int)
 	var wg sync.WaitGroup
-	workers := runtime.GOMAXPROCS(0)
+	workers := runtime.NumCPU()
 	if workers > len(jobs) {
 		workers = len(jobs)
 	}
@@ -1292,40 +1402,42 @@ func TestVerifBoundedCrashResume(t *testing.T) {
 		wg.Add(1)
 		go func() {
 			defer wg.Done()
-			for job := range work {
-				func() {
-					defer func() {
-						if r := recover(); r != nil {
-							job.fail("harness panic: %v", r)
-						}
-					}()
-					job.run()
-				}()
+			for idx := range queue {
+				part, err := vcRunChild(idx, root)
+				if err != nil {
+					// no usable child process: run the job here (serialised)
+					fallbackMu.Lock()
+					fallbacks++
+					fallbackMu.Unlock()
+					jobs[idx].root = filepath.Join(root, fmt.Sprintf("local%04d", idx))
+					part = jobs[idx].runInProcess()
+				}
+				parts[idx] = part
 			}
 		}()
 	}
 	for _, idx := range order {
-		work <- jobs[idx]
+		queue <- idx
 	}
-	close(work)
+	close(queue)
 	wg.Wait()
 
-	cases, sequences, refused, failCount, completed := 0, 0, 0, 0, 0
+	cases, sequences, refused, failCount, completed, injected := 0, 0, 0, 0, 0, 0
 	reasons, devHits, stuckSet := map[string]int{}, map[string]int{}, map[string]bool{}
 	failures := []string{}
-	for _, job := range jobs {
-		cases, sequences, refused, failCount = cases+job.cases, sequences+job.sequences, refused+job.refused, failCount+job.failCount
-		completed += job.completed
-		for k := range job.stuck {
+	for _, part := range parts {
+		cases, sequences, refused, failCount = cases+part.Cases, sequences+part.Sequences, refused+part.Refused, failCount+part.FailCount
+		completed, injected = completed+part.Completed, injected+part.Injected
+		for _, k := range part.Stuck {
 			stuckSet[k] = true
 		}
-		for k, v := range job.reasons {
+		for k, v := range part.Reasons {
 			reasons[k] += v
 		}
-		for k, v := range job.devHits {
+		for k, v := range part.DevHits {
 			devHits[k] += v
 		}
-		failures = append(failures, job.failures...)
+		failures = append(failures, part.Failures...)
 	}
 	sort.Strings(failures)
 	if len(failures) > 5 {
@@ -1356,9 +1468,9 @@ func TestVerifBoundedCrashResume(t *testing.T) {
 	sort.Strings(stuck)
 	res := map[string]any{
 		"name": "crash-resume", "bound": boundText, "cases": cases, "exhaustive": true, "failures": failures,
-		"failure_count": failCount, "configs": len(configs), "sequences": sequences,
+		"failure_count": failCount, "configs": len(configs), "jobs": len(jobs), "jobs_run_in_process": fallbacks, "sequences": sequences,
 		"refused": refused, "refusal_reasons": refusalReasons, "distinct_refusal_reasons": len(reasons),
-		"known_deviation_hits": devHits, "resumes_completed": completed, "first_interruptions_after_which_resume_is_refused": stuck,
+		"known_deviation_hits": devHits, "resumes_completed": completed, "resumes_failed_by_injected_read_error": injected, "first_interruptions_after_which_resume_is_refused": stuck,
 	}
 	out, _ := json.Marshal(res)
 	fmt.Println("BOUNDED-RESULT " + string(out))
